@@ -131,18 +131,26 @@ func genLineRec(tier string, rng *RNG, emit func(Case)) {
 	// lists
 	both(alList, small, func(b []byte) {
 		emit(Case{Op: "pli", Args: []string{hx(b)}})
-		emit(Case{Op: "clo", Args: []string{hx(b), "pli"}})
+		for lo := 0; lo < 5; lo++ {
+			emit(Case{Op: "clo", Args: []string{hx(b), "pli", strconv.Itoa(lo)}})
+		}
 		emit(Case{Op: "listopen", Args: []string{hx(b), "0"}})
 		emit(Case{Op: "listopen", Args: []string{hx(b), "1"}})
 	})
 	lines(alList, small-1, func(b []byte) {
 		emit(Case{Op: "mli", Args: []string{hx(b), "0"}})
 		emit(Case{Op: "mli", Args: []string{hx(b), "1"}})
-		for _, lo := range []string{"-1", "0", "2", "5"} {
+		for _, lo := range []string{"0", "5"} {
 			emit(Case{Op: "liopen", Args: append(lrArgs("", b, 0), lo)})
 		}
+		// since 3fb40b2 the reader's column enters the tab arithmetic: every start state
+		for _, st := range lrStates {
+			for _, lo := range []string{"-1", "2"} {
+				emit(Case{Op: "liopen", Args: append(lrArgs(st.prefix, b, st.padding), lo)})
+			}
+		}
 		for m4 := -1; m4 <= len(b)+1; m4++ {
-			emit(Case{Op: "clo", Args: []string{hx(b), strconv.Itoa(m4)}})
+			emit(Case{Op: "clo", Args: []string{hx(b), strconv.Itoa(m4), strconv.Itoa((m4 + len(b) + 5) % 5)}})
 		}
 	})
 	for i := 0; i < nrand; i++ {
@@ -162,7 +170,7 @@ func genLineRec(tier string, rng *RNG, emit func(Case)) {
 					for _, ind := range []string{"", " ", "   ", "    "} {
 						b := []byte(ind + num + delim + rest)
 						emit(Case{Op: "pli", Args: []string{hx(b)}})
-						emit(Case{Op: "clo", Args: []string{hx(b), "pli"}})
+						emit(Case{Op: "clo", Args: []string{hx(b), "pli", strconv.Itoa((nd + len(rest)) % 5)}})
 						emit(Case{Op: "listopen", Args: []string{hx(b), "0"}})
 						emit(Case{Op: "listopen", Args: []string{hx(b), "1"}})
 						emit(Case{Op: "liopen", Args: append(lrArgs("", b, 0), "0")})
@@ -394,27 +402,32 @@ func implLineRec(c Case) ImplResult {
 				r.NoModel = true
 				break
 			}
-			v := parser.VerifCalcListOffset(b, m)
+			lo := ai(2)
+			v := parser.VerifCalcListOffset(b, m, lo)
 			r.Out = strconv.Itoa(v)
-			r.ModelLine = fmt.Sprintf("linerec clo %s %d", hx(b), m[4])
+			r.ModelLine = fmt.Sprintf("linerec clo %s %d %d", hx(b), m[4], lo)
 			key(v != 1)
-			// the specification: 1-4 columns after the marker belong to it; more (indented code) or a blank rest: 1
-			if !hasTab(b) {
-				rest := b[m[3]:]
-				n := leadingSpaces(rest)
-				want := n
-				if n > 4 || len(bytes.TrimRight(rest, " \n")) == 0 {
-					want = 1
-				}
-				if v != want {
-					spec(&r, "list-content-offset-differs-from-spec", "calcListOffset(%q) = %d, %d spaces follow the marker: want %d", b, v, n, want)
-				}
+			// the specification: 1-4 COLUMNS of white space after the marker belong to it; more (indented code) or a
+			// blank rest: 1. The marker ends at column lo+m[3] of the line (indentation and marker are tab-free), and a
+			// tab is as wide as the distance to the next tab stop from there.
+			rest := b[m[3]:]
+			n := leadingSpaces(expandIndent(rest, lo+m[3]))
+			want := n
+			if n > 4 || len(bytes.TrimRight(rest, " \t\n")) == 0 {
+				want = 1
+			}
+			if v != want {
+				spec(&r, "list-content-offset-differs-from-spec", "calcListOffset(%q, line offset %d) = %d, %d columns of white space follow the marker (which ends at column %d): want %d", b, lo, v, n, lo+m[3], want)
+			}
+			if !hasTab(b) && v != parser.VerifCalcListOffset(b, m, 0) {
+				c08(&r, "offset-variance", "calcListOffset(%q) differs between line offset %d and 0 on a tab-free line", b, lo)
 			}
 			break
 		}
 		var m [6]int
 		m[4] = ai(1)
-		r.Out = expectedPanic(func() string { return strconv.Itoa(parser.VerifCalcListOffset(b, m)) })
+		lo := ai(2)
+		r.Out = expectedPanic(func() string { return strconv.Itoa(parser.VerifCalcListOffset(b, m, lo)) })
 		key(true)
 	case "lastoff":
 		var os []int
